@@ -16,7 +16,7 @@ SPEC = {
     "rule": "case = generated PROGRAM over BOOL + the 8 integer kinds with := IF CASE FOR WHILE REPEAT EXIT CONTINUE RETURN (stage S1+S2, 35 %), with 1-3 user FUNCTIONs (S4, 25 %: positional / formal calls, defaults, OUT, IN_OUT), with FUNCTION_BLOCK types and instances with state (S5, 20 %) or with one-dimensional arrays and flat structs (S3, 20 %); profiles strict / natural / wild, optionally ill-typed in exactly one place; x 3 scan cycles with input writes between cycles; plus on every run the witnesses of the recorded findings and an exhaustive 657-program matrix over all type pairs (assignment, one operator per class, unary operators, FOR control/bound, CASE selector/label); non-trivial = accepted by the real compiler and at least one cycle completed; distinct = by hash of the case's operation lines",
     "trusted_base": COMMON_TRUSTED,
     "assumptions": [
-        "ST-core fragment only: stages S1+S2 proved; S3 (1-D arrays, flat structs as PROGRAM variables), S4 (FUNCTION calls) and S5 (FB instances as PROGRAM variables) modelled and compared, frame balance proved; nested aggregates, FB instances inside FBs/functions, EN/ENO, methods, strings, REAL, time/date, references, OOP, standard functions are not modelled",
+        "ST-core fragment only: stages S1+S2 and S3 (1-D arrays, flat structs as PROGRAM variables) proved; S4 (FUNCTION calls) and S5 (FB instances as PROGRAM variables) modelled and compared, frame balance proved; nested aggregates, FB instances inside FBs/functions, EN/ENO, methods, strings, REAL, time/date, references, OOP, standard functions are not modelled",
         "the program runs as the single background PROGRAM instance (TestHarness::from_source), no tasks, no I/O bindings",
     ],
 }
@@ -26,6 +26,6 @@ replay = make_replay("C01")
 
 MANIFEST = {
     "technique": 'Lean 4 proofs about an executable model of the ST interpreter (progress under a decidable guard, unconditional frame balance incl. FUNCTION calls, counterexamples to the full statement) + differential correspondence (verdict, outcome, frames, tagged store) against the real compiler/runtime + oracle on the implementation with recorded findings',
-    "level_text": "Proved in Lean (no sorry, axioms propext/Classical.choice/Quot.sound): (1) c01_frames_balanced / c01_frames_every_cycle / c01_call_frames_balanced / c01_fb_call_frames_balanced / c01_frames_balanced_s4 — for EVERY program (accepted or not), every store, every budget and every exit path the scan cycle, every FUNCTION call and every FUNCTION_BLOCK call pop exactly the frame they pushed (stages S1-S5, no typing hypothesis), and c01_never_panics — for every program whose literals compile (typed or not), from every store of well-formed values, no Rust panic site is reachable and the store stays well formed (stages S1+S2); (2) c01_progress_partial / c01_every_cycle_partial — for every program inside the decidable guard Strict, every well-typed input trace, every budget and every cycle index, the cycle completes, reports a value-dependent fault, or (only after a fault latched the resource) ResourceFaulted: never a static-class error, never a panic; (3) c01_fault_classes — the classification of enum RuntimeError (regenerated from error.rs on every run, no wildcard) is exactly the property's two lists; (4) eleven c01_counterexample_* theorems and c01_full_statement_false: the full statement over the accepted set is FALSE of the code as it is (mixed signed/unsigned operands, unary minus on unsigned, RETURN in a PROGRAM, negative integer exponent, unsigned FOR with negative step, undeclared FOR control variable, unchecked ELSE branch of CASE, ULINT FOR bound cast, empty argument list). Every run executes the model and the real code on the same generated programs and compares accept/reject verdict and, per cycle, outcome, frame count and every variable's tagged value; the oracle judges the implementation's own answers and matches failures against known_findings.json.",
-    "level_note": 'The theorems are about the hand-written models Model/StCore.lean (interpreter, S1+S2), Model/StExt.lean (FUNCTION calls, S4) and Model/StCheck.lean / StExtCheck.lean (what the compiler accepts); they are tied to /repo only by the differential run, whose generator bounds what it sees (distribution in the evidence). Progress (no static-class fault, no panic) is proved only inside the guard Strict (exact kinds, no untyped literal next to SINT/INT, no RETURN, no ULINT FOR) and only for stages S1+S2; for S3 (arrays/structs), S4 (FUNCTION calls) and S5 (FB instances) the model (Model/StExt.lean) is compared with the real code on every run but only frame balance is proved, progress there is tested through the oracle. Strings, REAL, time, references, OOP and the standard library are not modelled. Stack overflow by unbounded recursion cannot be exhibited in Lean and is replayed in a child process. 15 recorded open findings for C01 (genuine defects, each with a replayed witness); 4 earlier ones are fixed in /repo.',
+    "level_text": "Proved in Lean (no sorry, axioms propext/Classical.choice/Quot.sound): (1) c01_frames_balanced / c01_frames_every_cycle / c01_call_frames_balanced / c01_fb_call_frames_balanced / c01_frames_balanced_s4 — for EVERY program (accepted or not), every store, every budget and every exit path the scan cycle, every FUNCTION call and every FUNCTION_BLOCK call pop exactly the frame they pushed (stages S1-S5, no typing hypothesis), and c01_never_panics — for every program whose literals compile (typed or not), from every store of well-formed values, no Rust panic site is reachable and the store stays well formed (stages S1-S3); (2) c01_progress_partial / c01_every_cycle_partial — for every program inside the decidable guard Strict, every well-typed input trace, every budget and every cycle index, the cycle completes, reports a value-dependent fault, or (only after a fault latched the resource) ResourceFaulted: never a static-class error, never a panic (stages S1-S3: elementary variables, all statement forms, subscripted and field reads/writes on one-dimensional arrays and flat structs); (3) c01_fault_classes — the classification of enum RuntimeError (regenerated from error.rs on every run, no wildcard) is exactly the property's two lists; (4) seven c01_counterexample_* theorems and c01_full_statement_false: the full statement over the accepted set is still FALSE of the code as it is (mixed signed/unsigned operands, unary minus on unsigned, negative integer exponent, unsigned FOR with negative step, undeclared FOR control variable, ULINT FOR bound cast); three regression facts (c01_return_in_program_completes, c01_case_else_now_rejected, c01_call_empty_args_binds_formally) record the behaviour after the fixes f3b5b76 / 22a8b8f / d406d2d, whose witnesses stay in the harness — a regression is a violation. Every run executes the model and the real code on the same generated programs and compares accept/reject verdict and, per cycle, outcome, frame count and every variable's tagged value; the oracle judges the implementation's own answers and matches failures against known_findings.json.",
+    "level_note": 'The theorems are about the hand-written models Model/StCore.lean (interpreter, S1-S3; aggregates kept flattened, one slot per element/field, cross-checked on every S3 case against the nested representation of Model/StExt.lean), Model/StExt.lean (FUNCTION calls S4, FB instances S5) and Model/StCheck.lean / StExtCheck.lean (what the compiler accepts); they are tied to /repo only by the differential run, whose generator bounds what it sees (distribution in the evidence). Progress (no static-class fault, no panic) is proved only inside the guard Strict (exact kinds, no untyped literal next to SINT/INT, no ULINT FOR, no ULINT subscript, element/field slot names not shadowed; RETURN in a PROGRAM is inside the guard since f3b5b76) and only for stages S1-S3; for S4 (FUNCTION calls) and S5 (FB instances) the model (Model/StExt.lean) is compared with the real code on every run but only frame balance is proved, progress there is tested through the oracle. Strings, REAL, time, references, OOP and the standard library are not modelled. Stack overflow by unbounded recursion cannot be exhibited in Lean and is replayed in a child process. 12 recorded open findings for C01 (genuine defects, each with a replayed witness); 7 earlier ones are fixed in /repo.',
 }
